@@ -163,17 +163,26 @@ def c09_scenarios(tier, seed):
               "diamond": {"ta": [], "tb": ["ta"], "tc": ["ta"], "td": ["tb", "tc"]}}
     flags = [[], ["--quiet"], ["--json"], ["--force"]]
     scen, meta = [], []
-    n = 500 if tier == "quick" else 8000
-    for _ in range(n):
+    n = 440 if tier == "quick" else 8000
+    boundary = [1, 2, 3, 64, 100, 125, 126, 127, 128, 129, 130, 137, 143, 200, 254, 255]
+    singles = [(st, fl) for st in (boundary if tier == "quick" else list(range(1, 256))) for fl in range(4)]
+    for it in range(n + len(singles)):
         shape = rnd.choice(list(shapes))
         deps = shapes[shape]
         tasks = []
         anyfail = rnd.random() < 0.8
+        single = singles[it - n] if it >= n else None      # exactly one failing command, every status of the pool, every flag
+        target = rnd.choice(list(deps)) if single else None
         for name in deps:
             cmds = []
-            for k in range(rnd.randint(1, 4)):
-                fails = anyfail and rnd.random() < 0.25
-                cmds.append({"marker": "%s.%d" % (name, k + 1), "fails": fails, "status": rnd.choice([1, 2, 127, 255])})
+            ncmd = rnd.randint(1, 4)
+            pos = rnd.randrange(ncmd)
+            for k in range(ncmd):
+                if single:
+                    fails, status = (name == target and k == pos), single[0]
+                else:
+                    fails, status = (anyfail and rnd.random() < 0.25), rnd.choice(boundary)
+                cmds.append({"marker": "%s.%d" % (name, k + 1), "fails": fails, "status": status})
             tasks.append({"name": name, "deps": deps[name], "cmds": cmds})
         req = [rnd.choice(list(deps))] if rnd.random() < 0.5 else [list(deps)[-1]]
         text = ""
@@ -186,7 +195,9 @@ def c09_scenarios(tier, seed):
                 text += "    echo %s >> %s" % (c["marker"], LOG) + ("; exit %d" % c["status"] if c["fails"] else "") + "\n"
             text += "}\n\n"
         files.append({"p": "proj/spokfile", "c": text})
-        fl = rnd.choice(flags)
+        fl = flags[single[1]] if single else rnd.choice(flags)
+        if single:
+            req = [list(deps)[-1]]                           # the whole shape runs, so the failing command is reached
         scen.append({"id": len(scen) + 1, "files": files, "steps": [{"cwd": "proj", "argv": req + fl, "env": {}}, {"cwd": "proj", "argv": req, "env": {}}]})
         meta.append({"tasks": [{"name": t["name"], "cmds": [{"marker": c["marker"], "fails": c["fails"]} for c in t["cmds"]]} for t in tasks], "req": req, "flags": fl, "shape": shape})
     return scen, meta
@@ -355,13 +366,14 @@ def c12_scenarios(tier, seed):
     rnd = random.Random(seed)
     scen, meta = [], []
     tree = ["bin/tool", "bin/keep.txt", "build/a.o", "build/b.o", "build/readme.md", "dist/pkg/x.tar", "dist/pkg/sub/y.tar", "src/main.go", "src/a.o", "out.txt", "notes.md",
-            ".hidden/z.o", "decoy/out.txt"]
-    kinds = ["litfile", "litdir", "named_rel", "named_join", "named_empty", "named_dot", "glob", "glob_none", "missing", "lit_parent", "named_abs_outside"]
+            ".hidden/z.o", "decoy/out.txt", "build.log", "out.txt.bak", "dist/pkg.sha", ".x_cache/f.bin", "my_cache/f.bin", "my_cache/sub/g.bin", "cache.db", "zcache"]
+    kinds = ["litfile", "litdir", "named_rel", "named_join", "glob", "glob_none", "missing", "litdir_build", "litfile_buildlog", "glob_top", "litfile_bak", "litfile_sha",
+             "named_empty", "named_dot", "lit_parent", "named_abs_outside"]
     n = 400 if tier == "quick" else 6000
     for it in range(n):
         present = [p for p in tree if rnd.random() < 0.75]
         nout = rnd.randint(0, 5)
-        chosen = [rnd.choice(kinds[:9] if rnd.random() < 0.8 else kinds) for _ in range(nout)]
+        chosen = [rnd.choice(kinds[:12] if rnd.random() < 0.8 else kinds) for _ in range(nout)]
         cwd_nested = rnd.random() < 0.3
         has_clean = rnd.random() < 0.15
         vars_, outs, des, alt, degenerate = [], [], [], [], False
@@ -393,6 +405,19 @@ def c12_scenarios(tier, seed):
                         des.append(["proj"] + p.split("/")); alt.append(["proj"] + p.split("/"))
             elif kind == "glob_none":
                 outs.append('"**/*.nomatch"')
+            elif kind == "litdir_build":
+                outs.append('"build"'); des.append(["proj", "build"]); alt.append(["proj", "build"])
+            elif kind == "litfile_buildlog":
+                outs.append('"build.log"'); des.append(["proj", "build.log"]); alt.append(["proj", "build.log"])
+            elif kind == "litfile_bak":
+                outs.append('"out.txt.bak"'); des.append(["proj", "out.txt.bak"]); alt.append(["proj", "out.txt.bak"])
+            elif kind == "litfile_sha":
+                outs.append('"dist/pkg.sha"'); des.append(["proj", "dist", "pkg.sha"]); alt.append(["proj", "dist", "pkg.sha"])
+            elif kind == "glob_top":
+                outs.append('"*cache*"')            # matches a hidden directory too (left alone) and entries sorting after it
+                for top in ("my_cache", "cache.db", "zcache"):
+                    if any(p == top or p.startswith(top + "/") for p in present):
+                        des.append(["proj", top]); alt.append(["proj", top])
         names = [v[0] for v in vars_]
         text = "".join("%s := %s\n" % v for v in vars_) + "\n"
         half = len(outs) // 2
